@@ -29,6 +29,15 @@ theorem drawChoice_attain (n i : Nat) (h : i < n) (log : List Req) (rest : List 
   have hn : n ≠ 0 := by omega
   simp [hn, DrawSt.note, DrawSt.pop, Nat.mod_eq_of_lt h]
 
+theorem drawChoice_cons (n i : Nat) (rest : List Nat) (log : List Req) (h : i < n) :
+    drawChoice n ⟨i :: rest, log⟩ = (some i, ⟨rest, log ++ [.choice n]⟩) := by
+  unfold drawChoice
+  have hn : n ≠ 0 := by omega
+  simp [hn, DrawSt.note, DrawSt.pop, Nat.mod_eq_of_lt h]
+
+theorem drawChoice_zero (d : DrawSt) : drawChoice 0 d = (none, d.note (.choice 0)) := by
+  simp [drawChoice]
+
 theorem isKind_floor (o : Obj) (h : o.isKind .floor = true) : o = .floor := by
   cases o <;> simp [Obj.isKind, Obj.kind] at h ⊢
 theorem isKind_obstacle (o : Obj) (h : o.isKind .obstacle = true) : o = .obstacle := by
@@ -49,6 +58,12 @@ theorem mem_boundary1 (p n : Pos) :
     n ∈ manhattanBoundary p 1 ↔
       n = ⟨p.y - 1, p.x⟩ ∨ n = ⟨p.y, p.x + 1⟩ ∨ n = ⟨p.y + 1, p.x⟩ ∨ n = ⟨p.y, p.x - 1⟩ := by
   simp [manhattanBoundary, List.range_succ]
+
+theorem obstacleStep_def (g : Grid) (p : Pos) (d : DrawSt) :
+    obstacleStep g p d =
+      match drawChoice (freeNbrs g p).length d with
+      | (none, d) => (g, d)
+      | (some i, d) => (g.swap p ((freeNbrs g p).getD i p), d) := rfl
 
 /-- one turn: nothing happens exactly when there is no free neighbour, otherwise the obstacle is
 swapped with one of them -/
